@@ -14,7 +14,7 @@ LEVEL = "model_checking"
 BUDGET = {"quick": 420, "thorough": 3000}
 
 ALPHABET = ["enable", "link_up", "s1f14_ok_latest", "s1f13", "tick", "s1f14_nak_latest", "s1f14_ok_alien", "link_lost", "s1f1",
-            "user_msg", "s1f14_ok_stale", "disable"]
+            "user_msg", "s1f14_ok_stale", "disable", "s1f14_empty_commack_latest", "s1f14_empty_list_latest"]
 
 # timer configurations: the default (T3 > delay) and one where two reply time-outs fit into one delay (T3 << delay), so that
 # a timer armed by an earlier attempt can still be pending when a later attempt has failed
@@ -124,6 +124,15 @@ class Harness:
                 must_establish = True
             else:
                 self.naks.setdefault(self.sent13[-1][0], s.clock)
+        elif ev in ("s1f14_empty_commack_latest", "s1f14_empty_list_latest"):
+            # an answer that carries no COMMACK value at all (zero-length binary / empty list): not COMMACK = 0, must not establish
+            open13 = [x for x in self.sent13 if x[1] + self.t3 > s.clock]
+            if not open13 or open13[-1] is not self.sent13[-1]:
+                return False
+            inner = ("L", []) if from_host else ("L", [("A", b"peer"), ("A", b"1.0")])
+            body = e5.enc(("L", [("B", b""), inner])) if ev == "s1f14_empty_commack_latest" else e5.enc(("L", []))
+            ep.send_primary(1, 14, False, body, system=self.sent13[-1][0])
+            self.naks.setdefault(self.sent13[-1][0], s.clock)
         elif ev == "s1f14_ok_stale":
             stale = [x for x in self.sent13 if x[1] + self.t3 <= s.clock or x is not self.sent13[-1]]
             if not stale:
@@ -244,8 +253,111 @@ def run_history(history, role="equipment", probe=True, timers="default"):
     return out
 
 
+# ------------------------------------------------------------------------------------------ an accepting S1F14 against link loss / T3
+REGION = [
+    "secsgem.common.state_machine:StateMachine._perform_transition",
+    "secsgem.common.state_machine:StateMachine._check_transition_source",
+    "secsgem.common.state_machine:StateMachine._execute_transition",
+    "secsgem.gem.communication_state_machine:CommunicationStateMachine.*",
+    "secsgem.gem.handler:GemHandler._on_message_received",
+    "secsgem.gem.handler:GemHandler._on_disconnected",
+    "secsgem.gem.handler:GemHandler._on_state_communicating",
+    "secsgem.gem.handler:GemHandler._on_state_wait_cra",
+]
+
+
+def run_conc(devs, budgets, role="equipment", against="link_lost"):
+    """WAIT_CRA with an S1F13 outstanding; the accepting S1F14 arrives while the link is lost (or exactly when T3 expires).
+    Whatever the order: not COMMUNICATING once the link is down, no callback while not communicating, and with the link still up the
+    handler is either COMMUNICATING or retries within T3 + delay."""
+    box = {}
+
+    def driver(s):
+        s.frozen = True
+        s.line_points = False
+        hx = Harness(s, role)
+        for ev in ("enable", "link_up"):
+            if not hx.apply(ev):
+                box["harness"] = f"set-up event {ev} not applicable"
+                return
+        if not hx.sent13 or hx.ep.comm() != "WAIT_CRA":
+            box["harness"] = f"set-up did not reach WAIT_CRA with an S1F13 outstanding: {hx.ep.comm()} {hx.sent13}"
+            return
+        ep = hx.ep
+        from_host = role != "host"
+        if against == "t3":
+            # let virtual time run up to just before the T3 deadline of the outstanding S1F13
+            s.block(lambda: False, hx.sent13[-1][1] + hx.t3, "until the T3 deadline")  # the answer arrives exactly when T3 expires
+        s.frozen = False
+        s.line_points = True
+        ep.send_primary(1, 14, False, gh.body_s1f14(0, from_host), system=hx.sent13[-1][0])
+        if against == "link_lost":
+            ep.conn.peer_close()
+        s.settle()
+        s.line_points = False
+        s.frozen = True
+        hx.note(ep.pump())
+        box["comm"] = ep.comm()
+        box["link"] = ep.conn.link_up
+        hx.last_event, hx.pre = "after-race", "WAIT_CRA"
+        n_calls = len(hx.calls)
+        if ep.conn.link_up and ep.state() == "CONNECTED_SELECTED":
+            ep.send_primary(5, 1, True, e5.enc(("L", [("B", b"\x81"), ("U4", [7]), ("A", b"alarm")])))
+            s.settle()
+            hx.note(ep.pump())
+            for name, state in hx.calls[n_calls:]:
+                if state != "COMMUNICATING":
+                    hx.v(f"I4-callback-{name}-while-{state}")
+            if ep.comm() != "COMMUNICATING":
+                hx.ok = False
+                hx.probe_retry()
+        box["viol"] = list(hx.viol)
+        hx.h.disable()
+
+    sched = vrt.run(driver, devs, budgets, max_steps=400000, max_time=1e6, line_points=True)
+    res = {"trace": sched.trace, "v": []}
+    case = {"part": "conc", "role": role, "against": against}
+    if sched.harness_failure or sched.driver_exception or box.get("harness"):
+        res["harness"] = (sched.harness_failure or sched.driver_exception or box.get("harness"))[-1200:]
+        res["obs"] = None
+        return res
+    if sched.outcome != "done":
+        res["v"].append((f"C07|{role}|concurrent|execution-{sched.outcome}|{against}", {"case": case, "info": sched.deadlock_info}))
+        res["obs"] = sched.outcome
+        return res
+    res["obs"] = {"comm": box["comm"], "link": box["link"]}
+    if not box["link"] and box["comm"] == "COMMUNICATING":
+        res["v"].append((f"C07|{role}|concurrent|I3-communicating-on-a-lost-link|S1F14-against-{against}", {"case": case}))
+    for sig, d in box["viol"]:
+        d["case"] = case
+        res["v"].append((sig.replace("|event=", "|concurrent|event="), d))
+    return res
+
+
 def run(ctx):
+    # S part first (line tracing before any pool is forked)
+    from checks import hsms_harness as hh  # noqa: PLC0415
+    from mc import explore  # noqa: PLC0415
+
+    missing = hh.trace_region(REGION)
+    if missing:
+        ctx.note(f"not line-traced (not found): {missing}")
+    kc = 3 if ctx.thorough else 2
+    cparts = []
+    ctrans = 0
+    for role in ("equipment", "host"):
+        for against in ("link_lost", "t3"):
+            st = explore.explore(ctx, run_conc, {"sched": kc}, f"c07-conc-{role}-{against}", opts={"role": role, "against": against}, chunk=8)
+            cparts.append({"role": role, "against": against, "executions": st["executions"], "outcomes": st["distinct_outcomes"],
+                           "levels_completed": st["levels_completed"]})
+            ctrans += st["executions"]
+            if st["levels_completed"] < kc:
+                ctx.exhaustive = False
+    ctx.setcov("concurrent_explorations", cparts)
+    ctx.setcov("delay_bound", kc)
     ctx.assumptions += [
+        "concurrent part: the accepting S1F14 (dispatcher thread) against link loss (connection thread) or T3 expiry (timer/requester thread), "
+        "every schedule with <= K delays at line granularity of the state-machine engine and the handler's transitions",
         "I5 (added): on one link, an S1F13 retry is not sent before previous-attempt-failure + configured delay (checked in both timer configurations)",
         "I1-I4 of DESIGN.md 3/C07 are the oracle (the statement constrains observable behaviour, not E30's internal sub-states)",
         "a late S1F14 answering an earlier S1F13 of the same link may or may not establish communication (both accepted)",
@@ -271,6 +383,17 @@ def run(ctx):
 
 def replay(ctx, detail):
     case = detail["case"]
+    if case.get("part") == "conc":
+        from checks import hsms_harness as hh  # noqa: PLC0415
+
+        hh.trace_region(REGION)
+        devs = {int(k): v for k, v in case.get("devs", {}).items()}
+        r = run_conc(devs, case.get("budgets", {}), role=case["role"], against=case["against"])
+        ctx.evaluations += 1
+        print("replayed:", r.get("obs"))
+        for sig, d in r["v"]:
+            ctx.violation(sig, d)
+        return
     role = case.get("role") or case.get("opts", {}).get("role", "equipment")
     timers = case.get("timers") or case.get("opts", {}).get("timers", "default")
     r = run_history(case["history"], role=role, timers=timers)
